@@ -46,6 +46,25 @@ def _lean_sources():
     return sorted(out)
 
 
+def _import_closure(module):
+    """source files of `module` and of everything it imports inside this project"""
+    seen, todo, out = set(), [module], []
+    while todo:
+        m = todo.pop()
+        if m in seen:
+            continue
+        seen.add(m)
+        path = os.path.join(LEAN, *m.split(".")) + ".lean"
+        if not os.path.exists(path):
+            continue
+        out.append(path)
+        for line in open(path):
+            line = line.strip()
+            if line.startswith("import CoolerModel"):
+                todo.append(line.split()[1])
+    return sorted(out)
+
+
 def lean_hash():
     h = hashlib.sha256()
     for p in _lean_sources():
@@ -112,9 +131,7 @@ def ensure_lean(pid):
         if r.returncode != 0:
             sys.stderr.write(r.stdout[-4000:] + r.stderr[-4000:])
             raise Infra("lake build failed")
-        for p in _lean_sources():
-            if not p.endswith(".lean") or os.path.basename(p).startswith("Audit"):
-                continue
+        for p in _import_closure(f"CoolerModel.Props.{pid}"):
             code = _strip_comments(open(p).read())
             for tok in FORBIDDEN:
                 if tok in code:
